@@ -75,6 +75,9 @@ def operations(root, out):
     ops["move file in"] = (lambda: os.rename(O("of"), R("ab", "of")), [E.FileCreatedEvent(R("ab", "of")), E.DirModifiedEvent(R("ab"))], {R("ab", "of"), R("ab")})
     sc = [E.FileCreatedEvent(R("od", "k"), is_synthetic=True), E.DirCreatedEvent(R("od", "ok"), is_synthetic=True), E.FileCreatedEvent(R("od", "ok", "m"), is_synthetic=True)]
     ops["move directory in"] = (lambda: os.rename(O("od"), R("od")), [E.DirCreatedEvent(R("od")), E.DirModifiedEvent(root)] + sc, {R("od"), root} | {e.src_path for e in sc})
+    back = [E.FileCreatedEvent(R("z", "f"), is_synthetic=True), E.DirCreatedEvent(R("z", "s"), is_synthetic=True), E.FileCreatedEvent(R("z", "s", "g"), is_synthetic=True)]
+    ops["move directory out and back in under another name"] = (lambda: (os.rename(R("a"), O("a")), os.rename(O("a"), R("z"))), [E.DirDeletedEvent(R("a")), E.DirCreatedEvent(R("z")), E.DirModifiedEvent(root)] + back,
+                                                                 {R("a"), R("z"), root} | {e.src_path for e in back})
     return ops
 
 
@@ -170,16 +173,29 @@ def run_op(name, recursive):
     return problems
 
 
-def burst(rootkind="str"):
-    """several operations while the reader is held back, so that their records arrive in one read batch: activity in a
-    directory, its rename, activity under the new name.  Soundness only: every non-synthetic event names an entry under
-    the name it really had when the operation happened (a creation under the new name must not be reported under the old)"""
+BURSTS = {
+    "rename": ("touch a/x0; mv a c; touch c/n1; mkdir c/nd",
+               lambda R: (open(R("a", "x0"), "w").close(), os.rename(R("a"), R("c")), open(R("c", "n1"), "w").close(), os.mkdir(R("c", "nd"))),
+               lambda R: [R("a"), R("a", "x0"), R("a", "f"), R("a", "s"), R("a", "s", "g"), R("c"), R("c", "n1"), R("c", "nd"), R("c", "x0"), R("c", "f"), R("c", "s"), R("c", "s", "g")],
+               lambda R, conv: [E.FileCreatedEvent(conv(R("c", "n1"))), E.DirCreatedEvent(conv(R("c", "nd"))), E.DirMovedEvent(conv(R("a")), conv(R("c")))]),
+    "nested-tree": ("mkdir -p new/sub/deep; touch new/sub/b new/sub/deep/c new/t",
+                    lambda R: (os.makedirs(R("new", "sub", "deep")), open(R("new", "sub", "b"), "w").close(), open(R("new", "sub", "deep", "c"), "w").close(), open(R("new", "t"), "w").close()),
+                    lambda R: [R("new"), R("new", "sub"), R("new", "sub", "deep"), R("new", "sub", "b"), R("new", "sub", "deep", "c"), R("new", "t")],
+                    lambda R, conv: [E.DirCreatedEvent(conv(R("new"))), E.DirCreatedEvent(conv(R("new", "sub"))), E.FileCreatedEvent(conv(R("new", "sub", "b"))), E.FileCreatedEvent(conv(R("new", "sub", "deep", "c"))), E.FileCreatedEvent(conv(R("new", "t")))]),
+}
+
+
+def burst(rootkind="str", which="rename"):
+    """several operations while the reader is held back, so that their records arrive in one read batch.  Soundness: every
+    non-synthetic event names an entry under a name it really had (a creation under the new name must not be reported under
+    the old one; an entry found by walking a new tree is reported where it is); plus the events the burst certainly owes"""
     import threading
     import watchdog.observers.inotify_c as ic
     base = tempfile.mkdtemp(prefix="c03u")
     problems = []
     gate = threading.Event()
     real = ic.Inotify.read_events
+    doc, act, real_paths, owed = BURSTS[which]
 
     def gated(self, *a, **k):
         gate.wait(5)
@@ -194,10 +210,7 @@ def burst(rootkind="str"):
         em.start()
         try:
             R = lambda *p: os.path.join(root, *p)
-            open(R("a", "x0"), "w").close()
-            os.rename(R("a"), R("c"))
-            open(R("c", "n1"), "w").close()
-            os.mkdir(R("c", "nd"))
+            act(R)
             gate.set()
             sent = R("zz-sentinel")
             open(sent, "w").close()
@@ -214,22 +227,20 @@ def burst(rootkind="str"):
                     continue
                 got.append(ev)
             if not seen:
-                return ["burst: the emitter went quiet (sentinel never reported)"]
-            real_old = {conv(p) for p in (R("a"), R("a", "x0"), R("a", "f"), R("a", "s"), R("a", "s", "g"))}
-            real_new = {conv(p) for p in (R("c"), R("c", "n1"), R("c", "nd"), R("c", "x0"), R("c", "f"), R("c", "s"), R("c", "s", "g"), root)}
+                return [f"burst ({doc}): the emitter went quiet (sentinel never reported)"]
+            ok_paths = {conv(p) for p in real_paths(R)} | {conv(root)}
             for e in got:
                 if e.is_synthetic:
                     continue
                 for p in (e.src_path, getattr(e, "dest_path", "")):
-                    if p and p not in real_old and p not in real_new and p != conv(root):
-                        problems.append(f"burst (touch a/x0; mv a c; touch c/n1; mkdir c/nd read as one batch): {e!r} names {p!r}, an entry that never existed under that name")
+                    if p and p not in ok_paths:
+                        problems.append(f"burst ({doc}, read as one batch): {e!r} names {p!r}, an entry that never existed under that name")
                         break
                 if problems:
                     break
-            need = [E.FileCreatedEvent(conv(R("c", "n1"))), E.DirCreatedEvent(conv(R("c", "nd"))), E.DirMovedEvent(conv(R("a")), conv(R("c")))]
-            for e in need:
+            for e in owed(R, conv):
                 if e not in got and not problems:
-                    problems.append(f"burst: required {e!r} missing; delivered {[x for x in got if not x.is_synthetic][:8]}")
+                    problems.append(f"burst ({doc}): required {e!r} missing; delivered {[x for x in got if not x.is_synthetic][:8]}")
         finally:
             gate.set()
             ic.Inotify.read_events = real
